@@ -25,6 +25,7 @@ from harness.util import import_df, js, attempt
 df = import_df()
 
 POS_TAG = "C08-pos-returns-self"
+NPBOOL_TAG = "C08-npbool-constant-rejected"
 ID0 = 100          # cell ids start here so that a padding constant is never mistaken for an id
 
 UN_CTOR = dict(neg="UNeg", abs="UAbs", comp="UComp", norm="UNorm", orient="UOrient", real="UReal",
@@ -1378,6 +1379,11 @@ def run_setter(c):
     if st != "ok":
         rec.update(obs=dict(err=f), key=f"setter/rej/{c['v'][0]}", size=1,
                    coq=f"CSetter {g.nl(n)} {coqv} None false {g.b(vals_same)} false")
+        if isinstance(pyv, np.bool_):
+            # a Boolean constant is a constant whatever its representation (known finding while it is rejected)
+            rec["oracle"].append("numpy-bool-constant-rejected")
+            rec["tags"].append(NPBOOL_TAG)
+            rec["coq"] = None
         return rec
     valid = f.valid
     isbool = valid.dtype == np.bool_
